@@ -34,5 +34,19 @@ let split_ws s = List.filter (fun x -> x <> "") (String.split_on_char ' ' s)
 let () =
   match Sys.argv.(1) with
   | "canon" -> each_line (fun l -> hex_of_bytes (canon (bytes_of_hex l)))
+  | "esc" -> each_line (fun l -> hex_of_bytes (shell_escape (bytes_of_hex l)))
+  | "pathlist" -> each_line (fun l ->
+      match split_ws l with
+      | [] -> "-"
+      | v :: names ->
+        let sep = n_of_int (if v = "in_newline" then 10 else 32) in
+        hex_of_bytes (make_path_list sep (List.map bytes_of_hex names)))
+  | "shwords" -> each_line (fun l ->
+      match sh_words (bytes_of_hex l) with
+      | None -> "none"
+      | Some ws -> "some " ^ String.concat " " (List.map hex_of_bytes ws))
+  | "json" -> each_line (fun l -> hex_of_bytes (json_encode (bytes_of_hex l)))
+  | "jsondec" -> each_line (fun l -> match json_decode (bytes_of_hex l) with None -> "none" | Some b -> "some " ^ hex_of_bytes b)
+  | "utf8" -> each_line (fun l -> if utf8_valid (bytes_of_hex l) then "1" else "0")
   | "canon_spec" -> each_line (fun l -> hex_of_bytes (canon_spec (bytes_of_hex l)))
   | c -> prerr_endline ("unknown component " ^ c); exit 2
